@@ -17,6 +17,9 @@ ASSUMPTIONS = B.ASSUMPTIONS_SYS
 def gen_one(rng, seed):
     sp = B.base_spec(rng, seed)
     sp["cmds"] = B.gen_cmds(rng, ["pause", "resume", "save", "pause", "resume", "pause"], nmax=8, shutdown=False)
+    if rng.random() < 0.25:
+        # an operator pause that nobody takes back: a failure during it (or while paused) must still end the run
+        sp["cmds"] = [["sleep", rng.choice([0.0, 0.002, 0.005])], ["pause"]]
     sp["cmds"] += [["sleep", 0.15], ["shutdown", "retry"]]     # safety net only: the failure must end the run long before
     sp["max_events"] = 30000
     r = rng.random()
